@@ -18,6 +18,9 @@ pub struct Ctx {
     pub seed: u64,
     pub leg: String,
     pub threads: usize,
+    /// set by ./check when the built crate owns writable static data (hidden state): the call-history
+    /// probes then run at their thorough size whatever the tier
+    pub escalate: bool,
 }
 
 impl Ctx {
@@ -26,6 +29,14 @@ impl Ctx {
     }
     pub fn smoke(&self) -> bool {
         self.tier == Tier::Smoke
+    }
+    /// size of a call-history workload: thorough size when escalated
+    pub fn pick_hist(&self, smoke: u64, quick: u64, thorough: u64) -> u64 {
+        if self.escalate && self.tier != Tier::Smoke {
+            thorough
+        } else {
+            self.pick(smoke, quick, thorough)
+        }
     }
     /// pick a workload size by tier
     pub fn pick(&self, smoke: u64, quick: u64, thorough: u64) -> u64 {
